@@ -60,6 +60,62 @@ def make_net(env, label, *args, **kw):
         return None
 
 
+class _ConcreteEnv:
+    """stands in for env where a throw-away concrete problem is built (warm_up): numbers from a seeded generator"""
+    symbolic = False
+
+    def __init__(self, seed):
+        import random as _r
+        self.rng = _r.Random(seed)
+        self.params = {}
+
+    def ext_real(self, name, kinds=None, lo=None, hi=None):
+        return self.real(name, lo, hi)
+
+    def real(self, name, lo=None, hi=None):
+        v = self.rng.choice([0, 1, 2, 3, 5, 8, 13, 21])
+        if lo is not None and v < lo:
+            v = lo
+        return v
+
+    def choice(self, name, options):
+        options = list(options)
+        return options[self.rng.randrange(len(options))]
+
+    def cover(self, *a, **k):
+        pass
+
+    def note(self, *a, **k):
+        pass
+
+    def prove(self, *a, **k):
+        pass
+
+    def assume(self, *a, **k):
+        pass
+
+
+def warm_up(env, algo, mode, spec, algo_params=None, seed=7, max_steps=3000, lo=None):
+    """A first, unrelated solve in the same process before the run under contract: the same algorithm on a problem with the
+    SAME variable / constraint names but other (concrete) cost tables and, when the spec allows, one constraint less.
+    Whatever it leaves behind in module-level or class-level state (caches keyed by names, shared default arguments,
+    class attributes) is then visible to the run that the obligations are about.  Its own outcome is not judged."""
+    import random as _r
+    cenv = _ConcreteEnv(seed)
+    spec2 = dict(spec)
+    if len(spec["cons"]) > 2:
+        spec2["cons"] = list(spec["cons"][1:])        # another topology under the same names
+    try:
+        variables, cons, tabs, varcost = build_dcop(cenv, spec2, lo=lo)
+        net = Net(cenv, algo, mode, variables, cons, dict(algo_params or {}))
+        for n in list(net.comps):
+            net.start(n)
+        net.run("fifo", max_steps=max_steps, rng=_r.Random(seed))
+    except (HandlerRaised, Exception):  # noqa - not judged
+        pass
+    env.cover("warmed-up")
+
+
 def get_spec(env, p, specs):
     """the problem of a shape: a named one, or (``spec='rand<n>'``) a seeded random instance with n variables drawn per
     run - for the sampled native pass on sizes beyond exhaustive path exploration"""
